@@ -274,6 +274,12 @@ def choose_inputs(ctx, scn, sr, n_random, pool):
         bal = {a: 0 for a in accts}
         bal[rich] = 1 << 128
         add(with_storage(D.Inputs(list(base.args), base.caller, base.origin, 0, bal, 0)), "boundary-balance")
+    # an argument that is the address the first CREATE of the run allocates (a symbolic call / EXTCODE* target may name an
+    # account that only comes into existence later in the same transaction)
+    for j in range(min(scn.nargs, 2)):
+        args = list(base.args)
+        args[j] = D.ALLOC_BASE + 1
+        add(with_storage(D.Inputs(args, base.caller, base.origin, 0, dict(base.balances), base.baldefault)), "arg-is-first-created-address")
     # solver-found inputs (z3 as a search aid) under a wall-clock budget per scenario
     used = ctx.extra.setdefault("solver_wall_s", 0.0)
     total = SOLVER_TOTAL_S[0 if ctx.tier == "quick" else 1]
